@@ -457,6 +457,8 @@ def expected(line):
             raise Err("nomethod")
         if op.startswith("m:"):
             return method_call(op[2:], args)
+        if op in MATH_FNS:
+            return math_fn(op, args)
         if op in POLY_CHAINS:
             # (compare< a b c ...): every adjacent pair in order of *mathematical value* (exact rationals, +-inf), left to right,
             # first failure decides
@@ -481,6 +483,151 @@ def expected(line):
         return "err:" + str(e)
     except NoClaim:
         return None
+
+
+# ------------------------------------------------------------------------------------------------- math.c
+# math/floor ceil trunc round abs, math/gcd, math/lcm on plain numbers: exact rationals (Fraction), no libm.
+
+MATH_FNS = {"math/floor": 1, "math/ceil": 1, "math/trunc": 1, "math/round": 1, "math/abs": 1, "math/gcd": 2, "math/lcm": 2}
+
+
+def _exact_float(fr, sign_of):
+    """a Fraction known to be a binary64 value -> float; a zero takes the sign of `sign_of`"""
+    if fr == 0:
+        return math.copysign(0.0, sign_of)
+    f = float(fr)
+    assert Fraction(f) == fr, "oracle: result is not a double"
+    return f
+
+
+def gcd_exact(x, y):
+    """janet_gcd on finite doubles with exact rational arithmetic: fmod(x, y) = x - y * trunc(x / y), sign of x (zero results included)"""
+    fx, fy = Fraction(x), Fraction(y)
+    sx, sy = math.copysign(1.0, x), math.copysign(1.0, y)
+    n = 0
+    while fy != 0:
+        q = abs(fx) // abs(fy)
+        r = abs(fx) - q * abs(fy)
+        r = -r if sx < 0 else r
+        fx, fy, sx, sy = fy, r, sy, sx
+        n += 1
+        if n > 5000:
+            raise NoClaim()
+    return _exact_float(fx, sx)
+
+
+def math_fn(op, args):
+    if len(args) != MATH_FNS[op]:
+        raise Err("arity")
+    if any(t != "n" for t, _ in args):
+        raise Err("badslot")
+    x = args[0][1]
+    if MATH_FNS[op] == 1:
+        if x != x:
+            return "n:nan"
+        if op == "math/abs":
+            return show_num(math.copysign(x, 1.0)) if abs(x) != math.inf else show_num(math.inf)
+        if abs(x) == math.inf:
+            return show_num(x)
+        fx = Fraction(x)
+        fl = fx.numerator // fx.denominator                 # floor (Python // on ints)
+        if op == "math/floor":
+            r = fl
+        elif op == "math/ceil":
+            r = -((-fx.numerator) // fx.denominator)
+        elif op == "math/trunc":
+            r = fl if fx >= 0 else -((-fx.numerator) // fx.denominator)
+        else:                                               # round: half away from zero
+            a = abs(fx)
+            m = (2 * a.numerator + a.denominator) // (2 * a.denominator)
+            r = m if fx >= 0 else -m
+        return show_num(_exact_float(Fraction(r), x))
+    y = args[1][1]
+    if x != x or y != y:
+        return "n:nan"
+    if abs(x) == math.inf or abs(y) == math.inf:
+        if op == "math/gcd":
+            return show_num(math.inf)
+        return None                                          # lcm with an infinite operand: (x / inf) * y, left to the hardware
+    g = gcd_exact(x, y)
+    if op == "math/gcd":
+        return show_num(g)
+    # lcm = (x / g) * y: two correctly rounded operations (exact rationals rounded once each)
+    if g == 0:
+        return "n:nan"                                       # 0 / 0
+    q = rne_exact("/", x, g)
+    if q is None:                                            # x = 0: a signed zero quotient
+        q = math.copysign(0.0, x) * math.copysign(1.0, g)
+    r = rne_exact("*", q, y)
+    if r is None:
+        r = q * y
+    return show_num(r)
+
+
+def math_lines(rng, n, nums):
+    """unary: halves, neighbours of integers, 2^52 region, pool values; gcd/lcm: small and large integers, consecutive Fibonacci numbers
+    (longest Euclid runs), huge integer-valued doubles, dyadic fractions, subnormals, zeros, NaN / infinities, a few non-numbers"""
+    lines = []
+    fib = [1, 1]
+    while fib[-1] < (1 << 1000):
+        fib.append(fib[-1] + fib[-2])
+    def unary_operand():
+        k = rng.below(8)
+        if k == 0:
+            return rng.choice(nums)
+        if k == 1:
+            v = rng.range(-40, 40) + 0.5
+            return f2b(v)
+        if k == 2:
+            v = rng.range(-(1 << 20), 1 << 20) + rng.choice([0.5, 0.25, 0.75, 0.0])
+            return f2b(math.nextafter(v, rng.choice([math.inf, -math.inf])) if rng.chance(1, 2) else v)
+        if k == 3:
+            v = float(rng.range((1 << 51) - 8, (1 << 53) + 8)) + rng.choice([0.0, 0.5, 0.25])
+            return f2b(v if rng.chance(1, 2) else -v)
+        if k == 4:
+            return f2b(rng.choice([0.49999999999999994, -0.49999999999999994, 0.5, -0.5, 0.0, -0.0, 1.5, 2.5, -2.5, 4503599627370495.5, -4503599627370495.5,
+                                   4503599627370496.5, 9007199254740991.0, 5e-324, -5e-324, 1e300, -1e300, math.inf, -math.inf, math.nan, 0.9999999999999999, -0.9999999999999999]))
+        if k == 5:
+            return f2b(rng.range(-(1 << 30), 1 << 30) / float(1 << rng.range(0, 40)))
+        r = rng.next()
+        if (r >> 52) & 0x7ff == 0x7ff and r & ((1 << 52) - 1):
+            r = (r & (1 << 63)) | 0x7ff8000000000000
+        return r
+    for i in range(n):
+        lines.append("%s n:%016x" % (["math/floor", "math/ceil", "math/trunc", "math/round", "math/abs"][i % 5], unary_operand()))
+    def gcd_operand():
+        k = rng.below(10)
+        if k == 0:
+            return float(rng.range(-100, 100))
+        if k == 1:
+            return float(rng.range(-T53, T53))
+        if k == 2:
+            v = float(fib[rng.range(1, 77)])                  # exactly representable Fibonacci numbers (< 2^53)
+            return v if rng.chance(3, 4) else -v
+        if k == 3:
+            return float(rng.range(1, 1 << 20) * (1 << rng.range(0, 900)))     # huge integer-valued doubles
+        if k == 4:
+            return rng.range(-(1 << 30), 1 << 30) / float(1 << rng.range(0, 40))
+        if k == 5:
+            return b2f(rng.below(1 << 52) | ((rng.below(2)) << 63))              # subnormal
+        if k == 6:
+            return rng.choice([0.0, -0.0, 1.0, -1.0, math.inf, -math.inf, math.nan, 9007199254740992.0, -9007199254740992.0, 1e308, 5e-324, 0.1, 0.5])
+        if k == 7:
+            return float(rng.range(1, 1000) * rng.range(1, 1 << 40))
+        if k == 8:
+            return float(rng.choice([2, 3, 6, 12, 60, 360, 5040, 720720, 1 << 52, 6 << 50, 3 ** 33]))
+        return float(rng.range(-(1 << 32), 1 << 32))
+    for i in range(n):
+        a, b = gcd_operand(), gcd_operand()
+        if rng.chance(1, 8):
+            j = rng.range(2, 76)
+            a, b = float(fib[j + 1]), float(fib[j])
+        if rng.chance(1, 8) and abs(b) < (1 << 26) and b == b:
+            a = b * rng.range(-(1 << 20), 1 << 20)
+        lines.append("%s n:%016x n:%016x" % ("math/gcd" if i % 3 else "math/lcm", f2b(a), f2b(b)))
+    lines += ["math/gcd s:4 n:4018000000000000", "math/gcd n:4018000000000000 t:4", "math/lcm u:4 u:6", "math/floor s:3", "math/abs s:-3", "math/round t:1",
+              "math/gcd n:4018000000000000", "math/floor n:4018000000000000 n:4018000000000000"]
+    return lines
 
 
 # ------------------------------------------------------------------------------------------------- integer family
